@@ -320,11 +320,16 @@ pub struct CheckArgs {
 }
 
 pub fn quick_runs(property: &str) -> u64 {
+    // a fixed number of seeds (not a wall-clock budget) so that the quick verdict does not depend
+    // on machine load
     match property {
-        "C01" => 1500,
-        "C02" => 1500,
-        "C03" => 2000,
-        _ => 1000,
+        "C01" => 6000,
+        "C02" => 6000,
+        "C03" => 8000,
+        "C04" => 8000,
+        "C05" => 3000,
+        "C14" => 8000,
+        _ => 4000,
     }
 }
 
@@ -332,7 +337,7 @@ pub fn check(a: &CheckArgs, meta: &CheckMeta) -> i32 {
     let t0 = Instant::now();
     let known = load_known();
     let thorough = a.tier == "thorough";
-    let budget = Duration::from_secs(a.budget_s.unwrap_or(if thorough { 900 } else { 100 }));
+    let budget = Duration::from_secs(a.budget_s.unwrap_or(if thorough { 900 } else { 600 }));
     let max_runs = a.runs.unwrap_or(if thorough { u64::MAX } else { quick_runs(&a.property) });
     let next = Arc::new(AtomicU64::new(0));
     let stop = Arc::new(AtomicBool::new(false));
